@@ -5662,7 +5662,8 @@ pub fn initialize(env: &mut Env) {
             Obj::Seq(Seq::Bytes(b)) => {
                 let mut gz = GzDecoder::new(&b[..]);
                 let mut s = Vec::new();
-                gz.read_to_end(&mut s).expect("what");
+                gz.read_to_end(&mut s)
+                    .map_err(|e| NErr::value_error(format!("decompress failed: {}", e)))?;
                 Ok(Obj::Seq(Seq::Bytes(Rc::new(s))))
             }
             a => Err(NErr::argument_error_1(&a)),
